@@ -231,6 +231,7 @@ func checkC11(c *Ctx) {
 	}
 	builtinRules(c, ref.C11, &ref, "C11")
 	subjectOpaque(c, ref.C11, "C11")
+	builtinsWriteNoVarb(c, "EFFECT-SIG")
 	r.Floor("EFFECT-SIG", 15)
 	r.Floor("RETURNS", 30)
 	r.Floor("MISSING-NOOP", 6)
@@ -321,13 +322,17 @@ func checkC12(c *Ctx) {
 	}
 	builtinRules(c, ref.C12, &ref, "C12")
 	subjectOpaque(c, ref.C12, "C12")
+	builtinsWriteNoVarb(c, "EFFECT-SIG")
 	r.Floor("EFFECT-SIG", 6)
 	// the engines are used through objects created per call (or immutable ones): no state of an earlier point
 	{
-		run, _ := registryMaps(t)
+		run, chk := registryMaps(t)
 		var roots []*ssa.Function
 		for _, name := range ref.C12 {
 			if f := run[name]; f != nil {
+				roots = append(roots, f)
+			}
+			if f := chk[name]; f != nil { // the load-time half: what a checker compiles is what the runner applies
 				roots = append(roots, f)
 			}
 		}
@@ -338,7 +343,7 @@ func checkC12(c *Ctx) {
 		}
 		sortFuncs(fns)
 		n, bad := sharedObjects(t, fns)
-		r.Ob("ENGINE-STATE", "extraction builtins share no engine object between points", "", len(bad) == 0,
+		r.Ob("ENGINE-STATE", "extraction builtins and their checkers share no engine object between points or loads", "", len(bad) == 0,
 			fmt.Sprintf("%d functions reachable from the C12 builtins, %d package-level foreign pointers inspected; %s — an engine object kept in a package variable can carry mode or cache state from one subject to the next (what is stored would then depend on history)", len(fns), n, strings.Join(bad, "; ")))
 	}
 	// pattern scope
@@ -1120,4 +1125,34 @@ func subjectOpaque(c *Ctx, names []string, prop string) {
 		r.Ob("SUBJECT-OPAQUE", relName(f)+" never branches on the subject's text", t.Pos(f.Pos()), len(bad) == 0, why)
 	}
 	r.Extra["subject_opaque_functions_"+prop] = n
+}
+
+
+// builtinsWriteNoVarb: what Task.GetKey hands a builtin for a name that has a variable is the live entry of the scope
+// frame. A builtin's documented effects are on the point; storing into the entry it looked up changes the script's
+// variable (value or type) behind the script's back. Only a Varb the function allocated itself may be filled in.
+func builtinsWriteNoVarb(c *Ctx, rule string) {
+	r, t := c.R, c.T
+	var bad []string
+	nFn := 0
+	for _, f := range t.PkgFuncs(pFuncs) {
+		nFn++
+		allInstrs(f, func(in ssa.Instruction) {
+			st, ok := in.(*ssa.Store)
+			if !ok {
+				return
+			}
+			fa, ok := st.Addr.(*ssa.FieldAddr)
+			if !ok || namedOf(fa.X.Type()) != "runtime.Varb" {
+				return
+			}
+			if _, isAlloc := fa.X.(*ssa.Alloc); isAlloc {
+				return
+			}
+			bad = append(bad, fmt.Sprintf("%s stores %s.%s at %s", relName(f), path(fa.X), fieldName(fa), t.Pos(st.Pos())))
+		})
+	}
+	sort.Strings(bad)
+	r.Ob(rule, "no builtin stores into a variable entry it looked up", "", len(bad) == 0,
+		fmt.Sprintf("%d functions of the builtin package inspected; %s — the entry GetKey returns for a script variable is the live one: converting it in place changes the variable, which no builtin is documented to do", nFn, strings.Join(bad, "; ")))
 }
